@@ -8,14 +8,15 @@
 // leaf, a negated leaf, or a binary of two leaves (all four leaf kinds).
 //
 // For every program accepted by schema.Parse:
-//   (a) converse: each reference token replaced by an undeclared name must give
-//       >= 1 error, positioned at that token;
-//   (b) run time: the real check engine (sqlite in-memory registry, the OPL
-//       loaded through namespaces.location=base64://..., max_read_depth raised, see c11Depth),
-//       every conforming tuple set of <= T tuples over one object per
-//       namespace, every query on a declared (namespace, relation) for every
-//       subject occurring in the set plus a fresh one, default and strict mode:
-//       Result.Err must not be a schema error.
+//
+//	(a) converse: each reference token replaced by an undeclared name must give
+//	    >= 1 error, positioned at that token;
+//	(b) run time: the real check engine (sqlite in-memory registry, the OPL
+//	    loaded through namespaces.location=base64://..., max_read_depth raised, see c11Depth),
+//	    every conforming tuple set of <= T tuples over one object per
+//	    namespace, every query on a declared (namespace, relation) for every
+//	    subject occurring in the set plus a fresh one, default and strict mode:
+//	    Result.Err must not be a schema error.
 //
 // The engine runs free (uninstrumented): only "a schema error was returned" is
 // judged, never allowed/denied. Enumeration is sharded over worker processes
@@ -423,8 +424,8 @@ type c11Vio struct {
 }
 
 type c11Report struct {
-	Programs, Accepted, Rejected     int64
-	Mutations, MutationsRejectedOK   int64
+	Programs, Accepted, Rejected      int64
+	Mutations, MutationsRejectedOK    int64
 	EnginePrograms, TupleSets, Checks int64
 	EagerCycle                        int64
 	EagerCycleSample                  string
@@ -632,7 +633,9 @@ type c11Tuple struct {
 	Sub     TypeRef // subject set Sub.NS:o#Sub.Rel
 }
 
-func (t c11Tuple) String() string { return fmt.Sprintf("%s:o#%s@(%s:o#%s)", t.NS, t.Rel, t.Sub.NS, t.Sub.Rel) }
+func (t c11Tuple) String() string {
+	return fmt.Sprintf("%s:o#%s@(%s:o#%s)", t.NS, t.Rel, t.Sub.NS, t.Sub.Rel)
+}
 func (t c11Tuple) internal() *relationtuple.RelationTuple {
 	return &relationtuple.RelationTuple{Namespace: t.NS, Object: oid(t.NS), Relation: t.Rel,
 		Subject: &relationtuple.SubjectSet{Namespace: t.Sub.NS, Object: oid(t.Sub.NS), Relation: t.Sub.Rel}}
@@ -1213,28 +1216,28 @@ func TestC11(t *testing.T) {
 		"distinct_nontrivial": int(tot.NonTrivial),
 		"rule": "union of the program spaces listed under bounds (index -> program bijection; shapes x type options x permission options); every program is parsed; every accepted program gets every single-reference mutation; one representative per namespace-renaming class additionally runs on the engine with every tuple set of <= max_tuples conforming tuples x every declared (namespace, relation) x subjects x {default, strict}. " +
 			"distinct_nontrivial = number of distinct accepted representative programs (pairwise non-isomorphic) that were run on the engine with at least one non-empty tuple set",
-		"bounds":                   bounds,
-		"program_indices":          total,
-		"programs_parsed":          int(tot.Programs),
-		"programs_accepted":        int(tot.Accepted),
-		"programs_rejected":        int(tot.Rejected),
-		"mutations":                int(tot.Mutations),
-		"mutations_rejected_at_token": int(tot.MutationsRejectedOK),
-		"engine_programs":          int(tot.EnginePrograms),
-		"tuple_sets":               int(tot.TupleSets),
-		"checks":                   int(tot.Checks),
-		"schema_errors":            int(tot.SchemaErrors),
-		"other_errors":             int(tot.OtherErrors),
-		"abandoned_checks":          int(tot.Abandoned),
-		"abandoned_check_example":   tot.AbandonedSample,
-		"unstable_candidates":       int(tot.Unstable),
-		"unstable_candidate_example": tot.UnstableSample,
-		"unsettled_goroutine_waits": int(tot.Unsettled),
+		"bounds":                                  bounds,
+		"program_indices":                         total,
+		"programs_parsed":                         int(tot.Programs),
+		"programs_accepted":                       int(tot.Accepted),
+		"programs_rejected":                       int(tot.Rejected),
+		"mutations":                               int(tot.Mutations),
+		"mutations_rejected_at_token":             int(tot.MutationsRejectedOK),
+		"engine_programs":                         int(tot.EnginePrograms),
+		"tuple_sets":                              int(tot.TupleSets),
+		"checks":                                  int(tot.Checks),
+		"schema_errors":                           int(tot.SchemaErrors),
+		"other_errors":                            int(tot.OtherErrors),
+		"abandoned_checks":                        int(tot.Abandoned),
+		"abandoned_check_example":                 tot.AbandonedSample,
+		"unstable_candidates":                     int(tot.Unstable),
+		"unstable_candidate_example":              tot.UnstableSample,
+		"unsettled_goroutine_waits":               int(tot.Unsettled),
 		"programs_not_run_eager_permission_cycle": int(tot.EagerCycle),
-		"eager_permission_cycle_example": tot.EagerCycleSample,
-		"storage_retries":          int(tot.WriteRetries),
-		"violations_by_signature":  sigs,
-		"frontier_indices_done":    tot.Done,
-		"exhaustive":               !tot.Cut && tot.Abandoned == 0,
+		"eager_permission_cycle_example":          tot.EagerCycleSample,
+		"storage_retries":                         int(tot.WriteRetries),
+		"violations_by_signature":                 sigs,
+		"frontier_indices_done":                   tot.Done,
+		"exhaustive":                              !tot.Cut && tot.Abandoned == 0,
 	})
 }
